@@ -6,7 +6,7 @@ import ast
 from ..consteval import ConstEval, EnumMember, NotConst, Sym
 from ..core import AnalysisError, ClassInfo, own_nodes, short, unparse
 from ..oracles import ttml_styles as oracle
-from ..rules import isdrules
+from ..rules import shape, isdrules
 from . import common
 
 EXPLANATION = (
@@ -351,4 +351,5 @@ def run(ctx):
   ctx.floor("AXIS", "_compute_length call sites", na, 12)
   check_units(ctx)
   check_ruby_font_size(ctx)
+  shape.check_cache_keys(ctx, common.funcs(ctx, ["ttconv.isd"]))
   common.check_history_independence(ctx, common.CORE)
